@@ -69,6 +69,35 @@ theorem C10_slicing_invariant (step : T → Action T V E) (bs₁ bs₂ : List Na
 
 example : ([1, 2, 3] : List Nat).sum = [3, 3].sum := rfl
 
+/-- **The one-call slicings `Runtime::run()` / `run_with_granularity(n)`.**  Whenever the loop returns (after
+    `k` calls of `run_n_steps(n)`, the first `k - 1` of which answered `OutOfSteps`), the runtime state and the
+    status are exactly those of the single call `run_n_steps(k * n)` — one more way to slice, same result. -/
+theorem C10_run_with_granularity (step : T → Action T V E) (n : Nat) :
+    ∀ (fuel : Nat) (r : Runtime T V E) (x : RunResult T V E), NoDone r → runG step n fuel r = some x →
+      ∃ k, 1 ≤ k ∧ k ≤ fuel ∧ x.rt = (runN step (k * n) r).rt ∧ x.status = (runN step (k * n) r).status ∧
+        x.status ≠ .outOfSteps := by
+  intro fuel
+  induction fuel with
+  | zero => intro r x _ h; simp [runG] at h
+  | succ fuel ih =>
+    intro r x hd h
+    rw [runG] at h
+    by_cases hs : (runN step n r).status = .outOfSteps
+    · simp only [hs] at h
+      have hnd := (C10_noDone_invariant step).2.1 n r hd
+      obtain ⟨k, hk1, hk2, e1, e2, e3⟩ := ih _ x hnd h
+      have hadd := C10_runN_add_outOfSteps step n (k * n) r hd hs
+      refine ⟨k + 1, by omega, by omega, ?_, ?_, e3⟩
+      · rw [show (k + 1) * n = n + k * n by rw [Nat.succ_mul]; omega, hadd.1, e1]
+      · rw [show (k + 1) * n = n + k * n by rw [Nat.succ_mul]; omega, hadd.2.1, e2]
+    · have : some (runN step n r) = some x := by
+        cases hst : (runN step n r).status <;> simp_all
+      cases this
+      exact ⟨1, by omega, by omega, by simp, by simp, hs⟩
+
+example : ∃ x, runG (fun (t : Nat) => if t < 5 then (Action.cont (t + 1) : Action Nat Nat Nat) else .stop t) 2 10
+    (Runtime.new 0) = some x ∧ x.status = .done := ⟨_, rfl, rfl⟩
+
 /-- **Host delay**: while every thread is blocked (pending host call or error) and nothing waits to be
     enqueued, any further `run_n_steps` call executes nothing and leaves the runtime exactly as it was. -/
 theorem C10_host_delay_invariant (step : T → Action T V E) (b : Nat) (r : Runtime T V E) (h : Stuck r) :
